@@ -1,9 +1,109 @@
 import WacModel.Spec.Plug
+import WacProofs.Lemmas.Plug2
+/-
+  C10 — plugging.
+
+  Model: WacModel/Plug.lean (`plug` as the composition of the modelled graph operations);
+  specification: WacModel/Spec/Plug.lean (`intendedImport`, `offers`, `expected`, `plugPost`).
+
+  Status of the theorems planned in DESIGN §7:
+    proved here   matching_is_spec, plug_preserves_inv, two_offers_fail,
+                  idle_plug_not_instantiated, no_offer_no_plug (⇐ of `no_plug_iff`),
+                  expected_no_plugs
+    partial       plug_supplies_matches, unmatched_stay_imports, socket_exports_reexported and
+                  the ⇒ direction of no_plug_iff are not theorems yet: they are the clauses of the
+                  executable post-condition `plugPost` / `expected`, evaluated by the driver on
+                  the graph the *implementation* reports for every generated case (SPEC) and on
+                  the model (MODEL).  plug_encodes_valid needs the encoder model (C01–C03); the
+                  harness checks it per case with the wasmparser validator.
+-/
 namespace Wac.Props.C10
 open Wac Wac.Graph
+
+/-- the small universe of the examples: package `s` (socket) imports `a : kind 0` and `b : kind 0`,
+    package `p` exports `a : kind 0`, package `q` exports nothing the socket wants -/
+def ctxP : Ctx where
+  kindExports k := if k = 1 then some [] else if k = 2 then some [(['a'], 0)] else if k = 3 then some [(['z'], 0)] else none
+  sub a b := a == b
+  tyVisits _ := []
+  tyIsResource _ := false
+  tyKind ty := 10 + ty
+  validExtern s := !s.isEmpty
+  validExport s := !s.isEmpty
+
+def socketP : PkgDef := ⟨['s'], none, [(['a'], 0), (['b'], 0)], 1⟩
+def plugP : PkgDef := ⟨['p'], none, [], 2⟩
+def idleP : PkgDef := ⟨['q'], none, [], 3⟩
 
 /-- with no plugs nothing is supplied: the specification expects `NoPlugHappened` -/
 theorem expected_no_plugs (ctx : Ctx) (socketD : PkgDef) : expected ctx socketD [] = .noPlug := by
   simp [expected, allOffers]
+
+/-- the `(plug export, socket import)` pairs the code collects are exactly the specification's
+    offers: same name first, else the first semver-compatible import (C15's *specification* of
+    compatibility), kept iff the subtype verdict holds -/
+theorem matching_is_spec (ctx : Ctx) (plugD socketD : PkgDef) :
+    plugExports ctx plugD socketD = (offers ctx socketD plugD).map (fun p => (p.2, p.1)) :=
+  plugExports_eq_offers ctx plugD socketD
+
+example : offers ctxP socketP plugP = [(['a'], ['a'])] := by decide
+
+/-- whatever `plug` returns (Ok, NoPlugHappened, a graph error, even a panic), the graph it
+    leaves is consistent (joins C06) -/
+theorem plug_preserves_inv (ctx : Ctx) (g : Graph) (plugs : List PkgId) (socket : PkgId) (h : Inv ctx g) :
+    Inv ctx (plug ctx g plugs socket).1 :=
+  plug_inv h plugs socket
+
+example : (plug ctxP (run ctxP {} [.register socketP, .register plugP]).1 [⟨1, 0⟩] ⟨0, 0⟩).2 = .ok := by decide
+
+/-- a second offer for an import that another node already supplies is rejected with
+    `ArgumentAlreadyPassed` and leaves the graph as it was (so `plug` fails rather than choosing) -/
+theorem two_offers_fail (ctx : Ctx) (g : Graph) (h : Inv ctx g) (inst arg a' i : Nat) (name : Str)
+    (nd : Node) (sat : List Nat) (pid : PkgId) (d : PkgDef) (k : Kind)
+    (hnd : g.node? inst = some nd) (hk : nd.kind = .instantiation sat) (hpid : nd.pkg = some pid)
+    (hd : g.pkgOf pid = .ok d) (hfull : alFull d.imports name = some (i, k))
+    (hedge : (⟨a', inst, .arg i⟩ : Edge) ∈ g.edges) (hne : a' ≠ arg) :
+    setArg ctx g inst name arg = (g, .err (.argumentAlreadyPassed inst name)) :=
+  setArg_already_passed h hnd hk hpid hd hfull hedge hne
+
+-- the same plug twice: the second round offers `a` again
+example : (plug ctxP (run ctxP {} [.register socketP, .register plugP]).1 [⟨1, 0⟩, ⟨1, 0⟩] ⟨0, 0⟩).2 =
+    .graphError (.argumentAlreadyPassed 0 ['a']) := by decide
+
+/-- a plug that offers nothing is skipped by the loop: no instantiation, no change -/
+theorem idle_plug_not_instantiated (ctx : Ctx) (g : Graph) (si : Nat) (socketD plugD : PkgDef) (p : PkgId)
+    (ps : List PkgId) (hp : g.pkgOf p = .ok plugD) (hidle : offers ctx socketD plugD = []) :
+    plugAll ctx si socketD (p :: ps) g = plugAll ctx si socketD ps g :=
+  plugAll_idle hp hidle
+
+example : instancesOf (plug ctxP (run ctxP {} [.register socketP, .register plugP, .register idleP]).1
+    [⟨2, 0⟩, ⟨1, 0⟩] ⟨0, 0⟩).1 ⟨2, 0⟩ = [] := by decide
+
+/-- (`no_plug_iff`, ⇐) when no plug offers anything for the socket, the result is
+    `NoPlugHappened` -/
+theorem no_offer_no_plug (ctx : Ctx) (g : Graph) (h : Inv ctx g) (plugs : List PkgId) (socket : PkgId)
+    (socketD : PkgDef) (hs : g.pkgOf socket = .ok socketD)
+    (hidle : ∀ p ∈ plugs, ∃ plugD, g.pkgOf p = .ok plugD ∧ offers ctx socketD plugD = []) :
+    (plug ctx g plugs socket).2 = .noPlugHappened := by
+  unfold plug
+  rw [hs]
+  simp only
+  unfold instantiate
+  rw [hs]
+  simp only
+  have hargs := args_of_fresh_inst h hs
+  -- package lookups are unchanged by `add_node`
+  have a := added_of_addNode h ⟨.instantiation [], some socket, socketD.instKind, none, none⟩
+  have hidle' : ∀ p ∈ plugs, ∃ plugD,
+      (g.addNode ⟨.instantiation [], some socket, socketD.instKind, none, none⟩).1.pkgOf p = .ok plugD ∧
+      offers ctx socketD plugD = [] := by
+    intro p hp
+    obtain ⟨plugD, h1, h2⟩ := hidle p hp
+    exact ⟨plugD, by rw [pkgOf_congr a.pkgs]; exact h1, h2⟩
+  rw [plugAll_all_idle plugs _ hidle']
+  simp only [hargs]
+
+example : (plug ctxP (run ctxP {} [.register socketP, .register idleP]).1 [⟨1, 0⟩] ⟨0, 0⟩).2 =
+    .noPlugHappened := by decide
 
 end Wac.Props.C10
